@@ -1,4 +1,79 @@
-From VF.C13 Require Import Model Proofs.
-Theorem C13_placeholder : forall k, get Empty k = None.
-Proof. exact placeholder_get_empty. Qed.
-Print Assumptions C13_placeholder.
+(* C13 - property theorems only.  Each is closed by [exact] of a lemma of the
+   Proofs files and followed by Print Assumptions. *)
+From VF.C13 Require Import Model Proofs Proofs2.
+From VF.Lib Require Import Keccak.
+Local Open Scope N_scope.
+
+(* Faithful map.  After any history of updates and deletes over byte keys
+   (an update with an empty value deletes), starting from the empty trie, a
+   lookup returns exactly what the reference map holds. *)
+Theorem C13_refines_map :
+  forall ops, Forall op_ok ops ->
+  forall k, bytes_ok k -> t_get (run ops) k = m_run ops k.
+Proof. exact run_refines. Qed.
+Print Assumptions C13_refines_map.
+
+(* Every reachable trie is in canonical form (see [canonb]: leaves carry
+   terminated keys and non-empty values, extensions have non-empty nibble keys
+   and a branch child, branches have 17 slots and at least two occupied). *)
+Theorem C13_reachable_canonical :
+  forall ops, Forall op_ok ops -> canon_root (run ops).
+Proof. exact run_canon. Qed.
+Print Assumptions C13_reachable_canonical.
+
+(* The canonical form is unique: two canonical tries with the same lookups on
+   all terminated keys are the same tree (so the same encoding and root hash,
+   for every hash function). *)
+Theorem C13_canonical_unique :
+  forall t1 t2, canon_root t1 -> canon_root t2 ->
+  (forall key, tkey key -> get t1 key = get t2 key) -> t1 = t2.
+Proof. exact canon_root_unique. Qed.
+Print Assumptions C13_canonical_unique.
+
+(* History independence: two histories whose reference maps agree build the
+   same trie, hence the same root under any hash function. *)
+Theorem C13_history_independent :
+  forall ops1 ops2, Forall op_ok ops1 -> Forall op_ok ops2 ->
+  (forall k, bytes_ok k -> m_run ops1 k = m_run ops2 k) ->
+  run ops1 = run ops2 /\ forall H, root_hash H (run ops1) = root_hash H (run ops2).
+Proof.
+  exact (fun ops1 ops2 H1 H2 Hm =>
+           let E := history_independent ops1 ops2 H1 H2 Hm in
+           conj E (fun H => f_equal (root_hash H) E)).
+Qed.
+Print Assumptions C13_history_independent.
+
+(* ---- non-vacuity ---------------------------------------------------------- *)
+
+Definition ex_ops1 : list kvop :=
+  [KUpdate [100;111;101] [114;101;105;110;100;101;101;114];         (* doe -> reindeer *)
+   KUpdate [100;111;103] [112;117;112;112;121];                     (* dog -> puppy *)
+   KUpdate [100;111] [1];                                           (* do, a prefix of both *)
+   KUpdate [100;111;103;103;108;101;115;119;111;114;116;104] [99;97;116];  (* dogglesworth -> cat *)
+   KDelete [100;111];
+   KUpdate [120] [7]; KUpdate [120] []].
+Definition ex_ops2 : list kvop :=
+  [KUpdate [100;111;103;103;108;101;115;119;111;114;116;104] [99;97;116];
+   KUpdate [100;111;103] [112;117;112;112;121];
+   KUpdate [100;111;101] [114;101;105;110;100;101;101;114]].
+
+Fixpoint ops_okb (ops : list kvop) : bool :=
+  match ops with
+  | [] => true
+  | KUpdate k _ :: r | KDelete k :: r => forallb (fun x => x <? 256) k && ops_okb r
+  end.
+
+(* a history with shared prefixes, a prefix key, deletes, a collapsing branch:
+   it is well-formed, ends in a non-trivial canonical trie, equals the trie of a
+   different history with the same content, and its root under Keccak-256 is the
+   well-known test vector 8aad789d... *)
+Example C13_nonvacuous_history :
+  ops_okb ex_ops1 = true /\ ops_okb ex_ops2 = true /\
+  canonb (run ex_ops1) = true /\ run ex_ops1 = run ex_ops2 /\
+  t_get (run ex_ops1) [100;111;103] = Some [112;117;112;112;121] /\
+  t_get (run ex_ops1) [100;111] = None /\
+  root_hash keccak256 (run ex_ops1) =
+    [138;173;120;157;255;47;83;139;202;93;142;165;110;138;190;16;
+     244;199;186;58;93;234;149;254;164;205;110;124;58;17;104;211].
+Proof. vm_compute. repeat split; reflexivity. Qed.
+Print Assumptions C13_nonvacuous_history.
